@@ -106,6 +106,9 @@ type relay struct {
 	processors *streamProcessors
 
 	peer *relay // relay for traffic from the peer
+
+	// done is closed when either direction of the session has ended. A nil channel never fires.
+	done chan struct{}
 }
 
 // newRelay initializes a relay for the given direction. This performs only partial initialization
@@ -212,6 +215,10 @@ func (r *relay) relayFrames(closing chan bool) error {
 		case <-closing:
 			// The ReadFrame goroutine is abandoned at this point. It completes as soon as the blocking
 			// ReadFrame call completes, but could potentially leak for an unspecified duration.
+			return nil
+		case <-r.done:
+			// The peer direction has ended. The ReadFrame goroutine is abandoned as above; it completes
+			// when the connections are closed.
 			return nil
 		}
 	}
@@ -484,6 +491,7 @@ func (r *relay) outputBuffer(streamID uint32) *outputBuffer {
 	if !ok {
 		w = &outputBuffer{
 			windowSize: int(r.initialWindowSize),
+			done:       r.done,
 		}
 		r.outputBuffers[streamID] = w
 	}
@@ -541,6 +549,9 @@ type outputBuffer struct {
 	// windowSize indicates how much data the receiver is ready to process.
 	windowSize int
 	queue      list.List // contains queuedFrame elements
+	// done is the session's done channel: once the session is ending the writer that consumes
+	// `output` may be gone, so emitting must not wait for it.
+	done chan struct{}
 }
 
 // emitEligibleFrames emits frames that would fit under both the stream window size and the
@@ -553,7 +564,11 @@ func (w *outputBuffer) emitEligibleFrames(output chan queuedFrame, connectionWin
 		if f.flowControlSize() > *connectionWindowSize || f.flowControlSize() > w.windowSize {
 			break
 		}
-		output <- f
+		select {
+		case output <- f:
+		case <-w.done:
+			return
+		}
 
 		*connectionWindowSize -= f.flowControlSize()
 		w.windowSize -= f.flowControlSize()
